@@ -44,7 +44,67 @@ def check(pid, tier, seed):
                        ASSUME, RULE, slots=4)
     eqtab_obligation(run)
     eqsides_obligation(run)
+    hashtag_obligation(run)
     return run
+
+
+def hashtag_obligation(run):
+    """E3n: two different built-in kinds that the equality handler compares structurally are not told apart by the hash
+    (lib/p_eqtab.analyse_hash: arm table of the handler x the tag Hash::hash mixes in per kind -> z3)"""
+    import os, re, json, shutil, subprocess, time
+    import ws, p_eqtab, p_kinds
+    oid = "hashtag:cross-kind-equal-values-hash-alike"
+    t0 = time.time()
+    M = getattr(run, "_c11mir", None)
+    try:
+        if M is None:
+            wsdir = ws.prepare("c11mir", [])
+            root = os.path.dirname(wsdir)
+            out = os.path.join(root, "steel_core.mir")
+            env = ws.mir_dump(wsdir, root, out)
+            run._c11mir = (wsdir, root, out, env)
+        else:
+            wsdir, root, out, env = M
+        kinds = p_kinds.variants(os.path.join(wsdir, "crates", "steel-core", "src"))
+        r = p_eqtab.analyse_hash(open(out).read(), kinds)
+    except Exception as ex:
+        run.ob(oid, "inconclusive", reason="extraction failed: %s" % str(ex)[-300:], engine="mir-smt")
+        return
+    common = dict(engine="mir-smt/z3", wall_s=round(time.time() - t0, 1), solver_s=round(r["dt"], 3), solver_checks=1)
+    run.samples.append({"engine": "mir-smt", "query": "exists kinds a != b (user-defined custom types excluded): RecursiveEqualityHandler::visit has an arm of its own for (a, b) AND Hash::hash mixes different tags in for a and b",
+                        "cross-kind arms of the equality handler": r["cross"], "Hash::hash mixes the discriminant in for every kind": r["mixes_discriminant"]})
+    run.functions.append("rvals::<SteelVal as Hash>::hash (tag hashed per kind before the contents) against the cross-kind arms of RecursiveEqualityHandler::visit (MIR)")
+    if r["res"] == "error" or not r["cross"]:
+        run.ob(oid, "inconclusive", reason="solver error or no cross-kind arm recognised", **common)
+        return
+    if r["res"] == "unsat":
+        run.ob(oid, "pass", nonvacuous=True, note="%d cross-kind arms; the kinds of each hash with the same tag" % len(r["cross"]), **common)
+        return
+    pairs = [p_eqtab.HASH_PAIR_EXPR[c] for c in r["cross"] if c in p_eqtab.HASH_PAIR_EXPR]
+    what = "the equality handler compares %s structurally, the hash mixes their kinds in" % ", ".join("%s with %s" % c for c in r["cross"][:2])
+    try:
+        shutil.copy(os.path.join(ws.VERIF, "harness", "arity_replay.rs"), os.path.join(wsdir, "crates", "steel-core", "tests", "verif_arity_replay.rs"))
+        p = subprocess.run(["cargo", "test", "--offline", "-p", "steel-core", "--no-default-features", "--features", ws.FEATURES,
+                            "--test", "verif_arity_replay", "--target-dir", os.path.join(root, "tn"), "--", "hashkey_replay", "--exact", "--nocapture"],
+                           cwd=wsdir, env=dict(env, VERIF_HASH_PAIRS=";;".join("%s|%s" % x for x in pairs)), capture_output=True, text=True, timeout=2400)
+        m = re.search(r"OBSERVED: (.*)", p.stdout + p.stderr)
+    except Exception as ex:
+        run.ob(oid, "inconclusive", reason="replay failed: %s" % str(ex)[-300:], **common)
+        return
+    if not m:
+        run.ob(oid, "inconclusive", reason="solver: %s; the probe pairs were interchangeable as keys natively" % what, **common)
+        return
+    d = os.path.join(ws.VERIF, "replays", run.pid)
+    os.makedirs(d, exist_ok=True)
+    path = os.path.join(d, "hashtag.json")
+    json.dump({"property": run.pid, "kind": "hashtag", "what": what, "pairs": ";;".join("%s|%s" % x for x in pairs), "observed": m.group(1), "how": "./check %s --replay <this file>" % run.pid}, open(path, "w"), indent=1)
+    key = "hashtag:%s" % "+".join(sorted({c[0] for c in r["cross"]}))
+    if run.is_known(key):
+        run.known_hit(key, run.known[(run.pid, key)] + " -- " + m.group(1)[:200])
+        run.ob(oid, "known", nonvacuous=True, **common)
+    else:
+        run.violation(key, "%s; natively: %s" % (what, m.group(1)[:300]), path)
+        run.ob(oid, "fail", note=m.group(1)[:200], **common)
 
 
 def eqsides_obligation(run):
@@ -190,6 +250,20 @@ def eqtab_obligation(run):
 def replay(pid, path):
     import json
     payload = json.load(open(path))
+    if payload.get("kind") == "hashtag":
+        import os, re, shutil, subprocess, ws
+        wsdir = ws.prepare("c11replay", [])
+        root = os.path.dirname(wsdir)
+        shutil.copy(os.path.join(ws.VERIF, "harness", "arity_replay.rs"), os.path.join(wsdir, "crates", "steel-core", "tests", "verif_arity_replay.rs"))
+        p = subprocess.run(["cargo", "test", "--offline", "-p", "steel-core", "--no-default-features", "--features", ws.FEATURES,
+                            "--test", "verif_arity_replay", "--target-dir", os.path.join(root, "tn"), "--", "hashkey_replay", "--exact", "--nocapture"],
+                           cwd=wsdir, env=dict(os.environ, VERIF_HASH_PAIRS=payload["pairs"]), capture_output=True, text=True)
+        m = re.search(r"OBSERVED: (.*)", p.stdout + p.stderr)
+        print("observed:", m.group(1) if m else "not reproduced")
+        if m:
+            print("VIOLATION property=%s replay=%s" % (pid, path))
+            return 1
+        return 0
     if payload.get("kind") == "eqsides":
         import os, re, shutil, subprocess, ws
         wsdir = ws.prepare("c11replay", [])
